@@ -6,6 +6,7 @@
 //!   wdec <hx>,<hx>,...           feed chunks then EOF to a real FramedRead<_, MessageCodec>
 //!                                                            -> `F{<frame>} ... E{<class>} END`
 //!   benc <hx>,<hx>,... | benc []  encode_message_batch       -> `<hx>`
+//!   bbig <n>*<len>,...           large batches (n messages of len bytes)  -> `len=<encoded length> same`
 //!   bdec <hx>                    decode_message_batch        -> `ok <hx>,<hx>` | `ok []` | `err` | `PANIC`
 //! Frames: `RP ns topic ret ops` `RS ..` `RR ns topic` `RQ ns topic` `M headers msg` `B bytes` `E code msg` `OK`
 use crate::util::*;
@@ -490,6 +491,33 @@ fn case_benc(out: &mut Out, ms: Vec<Vec<u8>>) {
     out.case(&line, &imp, mon);
 }
 
+/// `bbig <n>*<len>,<n>*<len>…`: batches too large to spell out (their encoding is larger than a frame: a batch travels
+/// compressed, so what is taken apart after decompression may be any size). Implementation line: the encoded length and
+/// whether unbatching returns the same messages.
+fn case_bbig(out: &mut Out, spec: &str) {
+    out.stat("bbig");
+    let mut ms: Vec<Vec<u8>> = vec![];
+    for part in spec.split(',') {
+        let (n, len) = part.split_once('*').expect("n*len");
+        let (n, len): (usize, usize) = (n.parse().unwrap(), len.parse().unwrap());
+        for _ in 0..n { let k = ms.len(); ms.push(vec![b'a' + (k % 26) as u8; len]); }
+    }
+    let input: Vec<Bytes> = ms.iter().map(|m| Bytes::from(m.clone())).collect();
+    let (imp, mon) = match catch(|| encode_message_batch(input.clone())) {
+        Err(p) => ("PANIC".into(), Err(format!("encode_message_batch panicked: {p}"))),
+        Ok(b) => {
+            let m = match catch(|| batch_decode(b.clone())) {
+                Ok(Some(v)) if v == ms => Ok(()),
+                Ok(Some(v)) => Err(format!("unbatch(batch(ms)) != ms ({} messages back for {})", v.len(), ms.len())),
+                Ok(None) => Err("decode_message_batch rejects encode_message_batch's output".to_string()),
+                Err(p) => Err(format!("decode_message_batch panicked on a valid batch: {p}")),
+            };
+            (format!("len={} {}", b.len(), if m.is_ok() { "same" } else { "differs" }), m)
+        }
+    };
+    out.case(&format!("bbig {spec}"), &imp, mon);
+}
+
 /// adapts to the signature of `decode_message_batch` (Vec<Bytes> before the repair, Result<Vec<Bytes>> after)
 trait BatchOut { fn norm(self) -> Option<Vec<Vec<u8>>>; }
 impl BatchOut for Vec<Bytes> { fn norm(self) -> Option<Vec<Vec<u8>>> { Some(self.into_iter().map(|b| b.to_vec()).collect()) } }
@@ -530,6 +558,7 @@ pub fn run(cfg: &Cfg) {
                 "wenc" => case_wenc(&mut out, parse_frame(&t[1..])),
                 "wdec" => case_wdec(&mut out, parse_chunks(t[1]), None, "replay"),
                 "benc" => case_benc(&mut out, parse_chunks(t[1])),
+                "bbig" => case_bbig(&mut out, t[1]),
                 "bdec" => case_bdec(&mut out, unhx(t[1]), "replay"),
                 _ => panic!("bad wire case {l}"),
             }
@@ -624,6 +653,12 @@ pub fn run(cfg: &Cfg) {
     // --- batches
     case_benc(&mut out, vec![]);
     case_benc(&mut out, vec![vec![]]);
+    // batches around and beyond the size of a frame; many tiny and empty members
+    let max = 1usize << 20;
+    for spec in [format!("1*{}", max - 16), format!("1*{}", max - 15), format!("1*{}", max), format!("1*{}", max + 1), "10*204800".to_string(),
+                 "40000*27".to_string(), "3*400000,5*0,2*1".to_string(), "70000*0".to_string(), "1*0,1*1500000,1*0".to_string()] {
+        case_bbig(&mut out, &spec);
+    }
     for _ in 0..cfg.n(400, 20_000) {
         let n = r.below(6) as usize;
         let ms: Vec<Vec<u8>> = (0..n).map(|_| rbytes(&mut r)).collect();
